@@ -443,4 +443,124 @@ theorem poll_keep (s : Station) (apps : Apps) (now : Int) (phy : Bool) (rx : Byt
         unfold Keep at this
         rw [hn1] at this; exact .inl this
 
+/-! ## The turn along whole histories -/
+
+/-- `walk` with resets: every callback goes to the application whose turn it is — or to application 0,
+the turn having been reset (station reset by `set_offline`) since the previous callback. -/
+def walkR (n : Nat) : Nat → List AppCall → Nat → Prop
+  | j, [], k => k = j ∨ k = 0
+  | j, r :: rest, k => (r.app = j ∨ r.app = 0) ∧ walkR n (nextIdx n r) rest k
+
+theorem walkR_of_walk (n : Nat) : ∀ (l : List AppCall) (j k : Nat), walk n j l = some k → walkR n j l k := by
+  intro l
+  induction l with
+  | nil => intro j k h; simp only [walk, Option.some.injEq] at h; exact .inl h.symm
+  | cons r rest ih =>
+    intro j k h
+    simp only [walk] at h
+    by_cases hr : r.app = j
+    · rw [if_pos hr] at h; exact ⟨.inl hr, ih _ k h⟩
+    · rw [if_neg hr] at h; cases h
+
+theorem walkR_start (n : Nat) (l : List AppCall) (j k m : Nat) (hk : k = j ∨ k = 0) (h : walkR n k l m) : walkR n j l m := by
+  cases l with
+  | nil =>
+    simp only [walkR] at h ⊢
+    rcases h with h | h
+    · rcases hk with hk | hk
+      · exact .inl (h.trans hk)
+      · exact .inr (h.trans hk)
+    · exact .inr h
+  | cons r rest =>
+    simp only [walkR] at h ⊢
+    refine ⟨?_, h.2⟩
+    rcases h.1 with h1 | h1
+    · rcases hk with hk | hk
+      · exact .inl (h1.trans hk)
+      · exact .inr (h1.trans hk)
+    · exact .inr h1
+
+theorem walkR_append (n : Nat) : ∀ (l1 l2 : List AppCall) (j k m : Nat), walkR n j l1 k → walkR n k l2 m →
+    walkR n j (l1 ++ l2) m := by
+  intro l1
+  induction l1 with
+  | nil => intro l2 j k m h1 h2; exact walkR_start n l2 j k m h1 h2
+  | cons r rest ih =>
+    intro l2 j k m h1 h2
+    simp only [walkR, List.cons_append] at h1 ⊢
+    exact ⟨h1.1, ih l2 _ k m h1.2 h2⟩
+
+/-- Reading of `walkR`. -/
+theorem walkR_adjacent (n : Nat) : ∀ (log : List AppCall) (j k : Nat), walkR n j log k →
+    (∀ r post, log = r :: post → r.app = j ∨ r.app = 0) ∧
+    (∀ pre r1 r2 post, log = pre ++ r1 :: r2 :: post → r2.app = nextIdx n r1 ∨ r2.app = 0) := by
+  intro log
+  induction log with
+  | nil =>
+    intro j k _
+    exact ⟨(by intro r post h; cases h), (by intro pre r1 r2 post h; simp at h)⟩
+  | cons x rest ih =>
+    intro j k h
+    simp only [walkR] at h
+    obtain ⟨ih1, ih2⟩ := ih _ k h.2
+    refine ⟨(by intro r post he; cases he; exact h.1), ?_⟩
+    intro pre r1 r2 post he
+    cases pre with
+    | nil =>
+      simp only [List.nil_append, List.cons.injEq] at he
+      obtain ⟨e1, e2⟩ := he
+      subst e1
+      exact ih1 r2 post e2
+    | cons y ys =>
+      simp only [List.cons_append, List.cons.injEq] at he
+      exact ih2 ys r1 r2 post he.2
+
 end PV
+
+namespace PV.C15
+open PV PV.C05
+
+/-- Any API call, any state: the callbacks follow the turn, which afterwards is where they left it or
+back at application 0. -/
+theorem turn_step (w w' : World) (a : ApiCall) (l : List AppCall) (hs : w.stepLog a = some (w', l)) :
+    walkR w.apps.length w.s.nextApp l w'.s.nextApp ∧ w'.apps.length = w.apps.length := by
+  cases a with
+  | setOnline => cases hs; exact ⟨.inl rfl, rfl⟩
+  | setOffline => cases hs; exact ⟨.inr (setOffline_next w.s), rfl⟩
+  | poll now phy arrived =>
+    simp only [World.stepLog] at hs
+    split at hs
+    · rename_i c hc
+      cases hs
+      refine ⟨?_, (poll_frame _ _ _ _ _ _ hc).2⟩
+      by_cases hh : Holding w.s
+      · exact walkR_of_walk _ _ _ _ (poll_walk _ _ _ _ _ _ hh hc).1
+      · have hk := poll_keep _ _ _ _ _ _ hh hc
+        rcases poll_calls _ _ _ _ _ _ hc with ⟨h0, -⟩ | ⟨-, hu, -, -⟩ | ⟨-, x, d, hst, -⟩
+        · show walkR _ _ c.calls _
+          rw [h0]; exact hk
+        · exact absurd (.inl hu) hh
+        · exact absurd (.inr ⟨x, d, hst⟩) hh
+    · cases hs
+
+theorem turn_run : ∀ (calls : List ApiCall) (w w' : World) (log : List AppCall), w.runLog calls = some (w', log) →
+    walkR w.apps.length w.s.nextApp log w'.s.nextApp ∧ w'.apps.length = w.apps.length := by
+  intro calls
+  induction calls with
+  | nil => intro w w' log h; cases h; exact ⟨.inl rfl, rfl⟩
+  | cons a rest ih =>
+    intro w w' log h
+    simp only [World.runLog] at h
+    split at h
+    · rename_i w1 l1 hs1
+      split at h
+      · rename_i w2 l2 hr2
+        cases h
+        obtain ⟨hw1, hl1⟩ := turn_step w w1 a l1 hs1
+        obtain ⟨hw2, hl2⟩ := ih w1 w' l2 hr2
+        rw [hl1] at hw2
+        exact ⟨walkR_append _ _ _ _ _ _ hw1 hw2, hl2.trans hl1⟩
+      · cases h
+    · cases h
+
+end PV.C15
